@@ -21,6 +21,7 @@
   The stopper is not modelled: it truncates a sequence (every loop is guarded by it, `stopperGuards`).
 -/
 import Kopf.Lemmas.C10_Timer
+import Kopf.Lemmas.C10_Sleep
 namespace Kopf.C10
 
 /-! ### no overlap -/
@@ -704,5 +705,73 @@ example : ¬ SchedUnder .propagate cfgK view0 0 itsK (fun n => n == 1) := fun h 
   simp [itsK] at this
 
 end Examples
+
+/-! ### The sleep under every wait of the loop (`aiotime.sleep`): `_timer` ignores its result, so the schedule laws above
+    (stated with `sleepUntil`) hold only if an un-woken sleep lasts the WHOLE delay, however long it is. -/
+
+/-- A sleep nobody wakes before its deadline returns exactly at `sleepUntil now d` — for EVERY delay, of any magnitude —
+    and reports "slept in full" (`None`). This is what licenses `sleepUntil` in `post`/`Sched`. -/
+theorem sleep_undisturbed_is_sleepUntil (now d : Int) (wake : Option Int)
+    (h : ∀ w, wake = some w → now + d ≤ w) :
+    sleep now d wake = ⟨sleepUntil now d, none⟩ := by
+  rw [sleep_unfold]; unfold sleepUntil
+  by_cases hd : d ≤ 0
+  · simp [hd]
+  · cases wake with
+    | none => simp [hd]
+    | some w => have := h w rfl; have hw : ¬ w < now + d := by omega
+                simp [hd, hw]
+
+/-- Only the wakeup event (the stopper) ends a sleep early: a return before `now + d` means the event was set before. -/
+theorem sleep_early_only_when_woken (now d : Int) (wake : Option Int)
+    (h : (sleep now d wake).ret < sleepUntil now d) : ∃ w, wake = some w ∧ w < now + d := by
+  rw [sleep_unfold] at h; unfold sleepUntil at h
+  by_cases hd : d ≤ 0
+  · simp [hd] at h
+  · cases wake with
+    | none => simp [hd] at h
+    | some w => by_cases hw : w < now + d
+                · exact ⟨w, rfl, hw⟩
+                · simp [hd, hw] at h
+
+/-- The result says which: `None` iff the sleep was not cut short (so a caller MAY ignore it only when nothing but its own
+    stopper can cut it short — `_timer` re-checks the stopper at the top of the loop). -/
+theorem sleep_left_none_iff_full (now d : Int) (wake : Option Int) :
+    (sleep now d wake).left = none ↔ (sleep now d wake).ret = sleepUntil now d := by
+  rw [sleep_unfold]; unfold sleepUntil
+  by_cases hd : d ≤ 0
+  · simp [hd]
+  · cases wake with
+    | none => simp [hd]
+    | some w => by_cases hw : w < now + d
+                · simp only [hd, hw, if_true, if_false]; constructor
+                  · intro h; cases h
+                  · intro h
+                    have h' : max now w = now + d := h
+                    omega
+                · simp [hd, hw]
+
+/-- The changed variant (seed C10h and every neighbour: ANY finite cap on one uninterrupted wait): for every cap there
+    is a delay — every delay beyond the cap — whose un-woken sleep returns early with a number, which the loop takes
+    for a completed sleep: the next run starts before `sleepUntil`, i.e. before end + interval / the grid point / the
+    initial delay. -/
+theorem capped_sleep_witness (cap now d : Int) (hc : 0 < cap) (hd : cap < d) :
+    (sleepCapped (some cap) now d none).ret = now + cap ∧
+    (sleepCapped (some cap) now d none).ret < sleepUntil now d ∧
+    (sleepCapped (some cap) now d none).left = some (d - cap) := by
+  unfold sleepCapped sleepUntil
+  have h1 : ¬ d ≤ 0 := by omega
+  have h2 : min d cap = cap := by omega
+  have h3 : ¬ cap ≥ d := by omega
+  have h4 : max 0 (d - cap) = d - cap := by omega
+  simp [h1, h2, h3, h4]; omega
+
+-- non-vacuity: a two-day sleep (1 tick = 1/64 s) nobody wakes lasts two days; capped at a day it ends a day early
+example : sleep 64 (2 * 86400 * 64) none = ⟨64 + 2 * 86400 * 64, none⟩ := by decide
+example : sleep 64 (2 * 86400 * 64) (some (64 + 2 * 86400 * 64)) = ⟨sleepUntil 64 (2 * 86400 * 64), none⟩ :=
+  sleep_undisturbed_is_sleepUntil _ _ _ (by intro w h; cases h; decide)
+example : (sleepCapped (some (86400 * 64)) 64 (2 * 86400 * 64) none) = ⟨64 + 86400 * 64, some (86400 * 64)⟩ := by decide
+example : (sleep 0 128 (some 64)) = ⟨64, some 64⟩ := by decide
+
 
 end Kopf.C10
